@@ -15,6 +15,7 @@ open IV IV.Proto IV.CleanState
   init  fqdn obf obf6 obfhost obfmac kws pats hostre      new Cleaner                                   → ok
   clean noobf noredact allow line…            one clean_content call                                   → `ok` TAB out-line…
   cleanw noobf noredact allow line…           the same with width=True                                 → `ok` TAB out-line… | raised
+  fset N|L|text  /  cfile noobf noredact allow   the file at the path; one clean_file call on it         → N | L | F TAB text
   map                                         mapping() of ip, host, mac, ipv6, keyword                → five list fields
   write hostctx hascleaner noobf noredact allow line…     ContentProvider.write                        → E1 | E2 | S TAB text
   findall name group line  /  search name line  /  subpw line        recogniser checks
@@ -110,6 +111,7 @@ structure D where
   cfg : Option Cfg := none
   hostRe : Option Re := none
   st : St := {}
+  file : FileSt := .absent
 
 def D.re (d : D) (name : String) : Option (Bool × Re) :=
   (d.res.find? (fun x => x.1 == name)).map (·.2)
@@ -157,6 +159,9 @@ def mkCall (noobf noredact allow : String) (lines : List String) : Option Call :
   let ls ← lines.mapM decStr
   pure { noObfuscate := no, noRedact := nr, allowlist := al, lines := ls }
 
+/-- checksum of a long text (sent instead of the text itself) -/
+def polyHash (s : Str) : Nat := s.foldl (fun h c => (h * 131 + c.toNat) % 2305843009213693951) 7
+
 def handle (d : D) (fs : List String) : D × String :=
   match fs with
   | ["uni", w, s, dg] =>
@@ -199,6 +204,33 @@ def handle (d : D) (fs : List String) : D × String :=
       match cleanContentW d.env cfg d.st call with
       | (st', some out) => ({ d with st := st' }, "\t".intercalate ("ok" :: out.map encStr))
       | (st', none) => ({ d with st := st' }, "raised")
+    | _, _ => (d, "bad-op")
+  | "fsetr" :: segs =>
+    -- a long text as segments: `S:<string>` or `R:<hex code point>:<count>` (a run of one character)
+    let parts := segs.mapM (fun (g : String) => match g.splitOn ":" with
+      | ["S", x] => decStr x
+      | ["R", c, n] => do let c ← decChar c; let n ← n.toNat?; pure (List.replicate n c)
+      | _ => none)
+    match parts with
+    | some ps => ({ d with file := .file ps.flatten }, "ok")
+    | none => (d, "bad-op")
+  | ["fset", f] =>
+    if f = "N" then ({ d with file := .absent }, "ok")
+    else if f = "L" then ({ d with file := .link }, "ok")
+    else match decStr f with
+      | some t => ({ d with file := .file t }, "ok")
+      | none => (d, "bad-op")
+  | ["cfile", noobf, noredact, allow] =>
+    match d.cfg, mkCall noobf noredact allow [] with
+    | some cfg, some call =>
+      let r := cleanFile d.env cfg d.st call d.file
+      ({ d with st := r.1, file := r.2 },
+        match r.2 with
+        | .absent => "N" | .link => "L"
+        | .file t =>
+          if t.length > 20000 then
+            s!"G\t{t.length}\t{polyHash t}\t{encStr (t.take 120)}\t{encStr (t.drop (t.length - 120))}"
+          else "F\t" ++ encStr t)
     | _, _ => (d, "bad-op")
   | ["map"] =>
     match d.cfg with
